@@ -323,3 +323,156 @@ Proof. exact rto_armed_nofin_nonvacuous. Qed.
 
 Print Assumptions c02_zero_window_guard_nonvacuous.
 Print Assumptions c02_rto_armed_nofin_nonvacuous.
+
+(* ================================================================================================
+   Second batch (Conn/C02_Lemmas2.v, Conn/C02_Stall2.v, Conn/C02_Step2.v).
+   Invariant rm (C02_Lemmas2): rto_retransmissions > 0 -> the retransmission timer is armed and an
+   undelivered segment exists; it holds of vsock_new and is kept by every event after which the
+   connection goes on (Pending polls, application events). *)
+From Utp Require Import Conn.C02_Pred2 Conn.C02_SegLemmas2 Conn.C02_Lemmas2 Conn.C02_Stall2 Conn.C02_Step2.
+
+Theorem c02_rm_initial : forall (CC : Type) (cci : cc_iface CC) (mk : Z -> Z -> CC) (c : vconfig) (s : vsock CC),
+  vsock_new cci mk c = Some s -> rm s.
+Proof. exact @rm_vsock_new. Qed.
+
+Theorem c02_rm_invariant : forall (CC : Type) (cci : cc_iface CC) (s : vsock CC) (o : vop),
+  rm s -> poll_finished (vstep_out cci s o) = false -> rm (vstep_state cci s o).
+Proof. exact @rm_vstep_live. Qed.
+
+(* ---- RTO mode is always left again (class of C02-a): every step, every trace ---- *)
+Theorem c02_rto_mode_armed_every_step : forall (CC : Type) (cci : cc_iface CC) (cfg : vconfig) (s : vsock CC) (o : vop),
+  rm s -> c02_rto_mode_armed cfg (VSock_Lemmas.fstep_of cci s o) = true.
+Proof. exact @c02_rto_mode_armed_step. Qed.
+
+Theorem c02_rto_mode_armed_every_trace : forall (CC : Type) (cci : cc_iface CC) (cfg : vconfig)
+    (mk : Z -> Z -> CC) (c : vconfig) (s0 : vsock CC) (ops : list vop),
+  vsock_new cci mk c = Some s0 -> forallb (c02_rto_mode_armed cfg) (ftrace cci s0 ops) = true.
+Proof. exact @c02_rto_mode_armed_trace. Qed.
+
+(* ---- c02_no_silent_stall outside the stranded-segment class: every step, every trace ---- *)
+(* what send_tx_queue leaves behind (model state): Ok, transport writable, no restart => the clause *)
+Theorem c02_send_tx_queue_no_stall : forall (CC : Type) (cci : cc_iface CC) (s s' : vsock CC) (u : unit),
+  rm s -> v_restart s = false -> send_tx_queue cci s = SOk s' u ->
+  v_restart s' = false -> v_transport_pending s' = false -> stall_ok cci s'.
+Proof. exact @send_tx_queue_stall. Qed.
+
+Theorem c02_poll_no_stall : forall (CC : Type) (cci : cc_iface CC) (s s' : vsock CC),
+  rm s -> poll cci s = (s', PollPending) -> v_transport_pending s' = false -> stall_ok cci s'.
+Proof. exact @poll_stall. Qed.
+
+Theorem c02_no_silent_stall_g_every_step : forall (CC : Type) (cci : cc_iface CC) (cfg : vconfig) (s : vsock CC) (o : vop),
+  rm s -> c02_no_silent_stall_g cfg (VSock_Lemmas.fstep_of cci s o) = true.
+Proof. exact @c02_no_silent_stall_g_step. Qed.
+
+Theorem c02_no_silent_stall_g_every_trace : forall (CC : Type) (cci : cc_iface CC) (cfg : vconfig)
+    (mk : Z -> Z -> CC) (c : vconfig) (s0 : vsock CC) (ops : list vop),
+  vsock_new cci mk c = Some s0 -> forallb (c02_no_silent_stall_g cfg) (ftrace cci s0 ops) = true.
+Proof. exact @c02_no_silent_stall_g_trace. Qed.
+
+Theorem c02_rto_mode_armed_nonvacuous :
+  exists w cfg ops,
+    vconfig_ok cfg = true /\ Forall op_msg_ok ops /\
+    existsb (fun st => (0 <? f_rto_retx (fs_post st)) && negb (poll_ready (fs_result st))) (wtrace w cfg ops) = true /\
+    forallb (c02_rto_mode_armed cfg) (wtrace w cfg ops) = true.
+Proof. exact rto_mode_armed_nonvacuous. Qed.
+
+Theorem c02_no_silent_stall_g_nonvacuous :
+  exists w cfg ops,
+    vconfig_ok cfg = true /\ Forall op_msg_ok ops /\
+    existsb stall_guard_but_window (wtrace w cfg ops) = true /\
+    forallb (c02_no_silent_stall cfg) (wtrace w cfg ops) = true.
+Proof. exact no_silent_stall_g_nonvacuous. Qed.
+
+Print Assumptions c02_rm_initial.
+Print Assumptions c02_rm_invariant.
+Print Assumptions c02_rto_mode_armed_every_step.
+Print Assumptions c02_rto_mode_armed_every_trace.
+Print Assumptions c02_send_tx_queue_no_stall.
+Print Assumptions c02_poll_no_stall.
+Print Assumptions c02_no_silent_stall_g_every_step.
+Print Assumptions c02_no_silent_stall_g_every_trace.
+Print Assumptions c02_rto_mode_armed_nonvacuous.
+Print Assumptions c02_no_silent_stall_g_nonvacuous.
+
+(* ---- c02_rto_armed, the FIN half (Conn/C02_Fin2.v): for every poll that starts with our FIN number
+   already allocated (local FIN state), with the clause true before the poll, and - in FinWait1 -
+   the FIN numbered right after the last segment of the table.  [fin_alloc_guard] is a boolean
+   function of the fingerprint before the step: assumed-and-monitored.  Not covered: the poll in
+   which the FIN number is allocated; polls from FinWait1 states in which an MTU probe was popped
+   and re-split earlier (the FIN then no longer follows the table). ---- *)
+From Utp Require Import Conn.C02_Fin2.
+
+Theorem c02_poll_fin_armed : forall (CC : Type) (cci : cc_iface CC) (s s' : vsock CC),
+  K0 s -> poll cci s = (s', PollPending) -> v_transport_pending s' = false -> ti s' /\ FO s'.
+Proof. exact @poll_fin_armed. Qed.
+
+Theorem c02_rto_armed_fin_g_every_step_partial : forall (CC : Type) (cci : cc_iface CC) (cfg : vconfig) (s : vsock CC) (o : vop),
+  ti s -> c02_rto_armed_fin_g cfg (VSock_Lemmas.fstep_of cci s o) = true.
+Proof. exact @c02_rto_armed_fin_g_step. Qed.
+
+Theorem c02_rto_armed_fin_g_every_trace_partial : forall (CC : Type) (cci : cc_iface CC) (cfg : vconfig)
+    (mk : Z -> Z -> CC) (c : vconfig) (s0 : vsock CC) (ops : list vop),
+  vsock_new cci mk c = Some s0 -> forallb (c02_rto_armed_fin_g cfg) (ftrace cci s0 ops) = true.
+Proof. exact @c02_rto_armed_fin_g_trace. Qed.
+
+Theorem c02_rto_armed_fin_g_nonvacuous :
+  exists w cfg ops,
+    vconfig_ok cfg = true /\ Forall op_msg_ok ops /\
+    existsb (fun st => fin_alloc_guard (fs_pre st) && fin_out (fs_post st) &&
+                       negb (f_transport_pending (fs_post st)) &&
+                       match fs_result st with FrPoll PollPending _ _ _ => true | _ => false end)
+            (wtrace w cfg ops) = true /\
+    forallb (c02_rto_armed cfg) (wtrace w cfg ops) = true.
+Proof. exact rto_armed_fin_g_nonvacuous. Qed.
+
+Print Assumptions c02_poll_fin_armed.
+Print Assumptions c02_rto_armed_fin_g_every_step_partial.
+Print Assumptions c02_rto_armed_fin_g_every_trace_partial.
+Print Assumptions c02_rto_armed_fin_g_nonvacuous.
+
+(* ---- c02_prompt, the write half (Conn/C02_Prompt2.v), at the level of the model state:
+   after a Pending poll with a writable transport the inbox is drained and open (or the connection
+   closed); a poll of an Established connection whose segment table is empty, whose ring holds
+   freshly written bytes only and whose inbox is drained emits ST_DATA carrying at least one byte,
+   under the guards of can_send_new plus: last_sent_seq_nr not ahead of snd_una (the two index
+   computations of the new-data part start at the head of the table), no immediate ACK owed, the
+   path limit not below header + max_ss, max_segment_retransmissions <> 0 (NonZeroUsize in the
+   code; vconfig_ok of the model admits 0).
+   PARTIAL: the lifting to the trace predicate c02_prompt_write_g (Conn/C02_Pred2.v: c02_prompt's
+   write arm with the two extra guards idle_seq_ok / no_imm_ack on the fingerprint) over every
+   ftrace is not done; the invariant it needs (PI: tinv, path limit = accumulator, max_retx <> 0)
+   is proved to be kept by every step (PI_step).  The shutdown arm is not proved. ---- *)
+From Utp Require Import Conn.VSock_LemmasPipe Conn.VSock_PollAux Conn.VSock_Poll Conn.C02_Prompt2.
+
+Theorem c02_poll_pending_inbox_drained : forall (CC : Type) (cci : cc_iface CC) (s s' : vsock CC),
+  poll cci s = (s', PollPending) -> v_transport_pending s' = false -> SC s' \/ IBE s'.
+Proof. exact @poll_pending_ibe. Qed.
+
+Theorem c02_prompt_write_poll_partial : forall (CC : Type) (cci : cc_iface CC), cc_total cci ->
+  forall (ti tm : Z) (s1 : vsock CC) tx1 n w buf s3 r,
+  tinv ti tm s1 -> tinv ti tm (set_tx s1 tx1) ->
+  IBE s1 -> v_state s1 = Established -> ss_segs (v_segs s1) = [] -> ring (v_tx s1) = [] ->
+  poll_write (v_tx s1) buf = (tx1, WrOk n, w) ->
+  0 < v_last_remote_window s1 ->
+  Z.min (max_ss (v_ss s1)) n <= cc_window cci (v_cc s1) ->
+  v_rto_retransmissions s1 = 0 -> is_recovering (v_recovery s1) = false ->
+  timer_expired (v_t_retransmit s1) (v_env_now s1) = false ->
+  timer_expired (v_t_inactivity s1) (v_env_now s1) = false ->
+  v_cbu s1 < IMMEDIATE_ACK_EVERY_RMSS * mss (v_ss s1) ->
+  seq_sub (wadd16 (v_last_sent_seq_nr s1) 1) (ss_snd_una (v_segs s1)) <= 0 ->
+  seq_sub (v_last_sent_seq_nr s1) (ss_snd_una (v_segs s1)) + 1 <= 0 ->
+  (forall m, v_emsg_limit s1 = Some m -> 20 + max_ss (v_ss s1) <= m) ->
+  o_max_retx (v_opts s1) <> 0 ->
+  poll cci (VSockRec.set_sends (set_tx s1 tx1) []) = (s3, r) ->
+  exists l p l0, v_out s3 = l ++ p :: l0 /\ ch_type (p_hdr p) = ST_DATA /\ 1 <= Z.of_nat (length (p_payload p)).
+Proof. exact @prompt_write_poll. Qed.
+
+Theorem c02_prompt_invariant_kept : forall (CC : Type) (cci : cc_iface CC), cc_total cci ->
+  forall (ti tm : Z) (s : vsock CC) a o,
+  PI ti tm s a -> op_clock_ok o -> poll_finished (vstep_out cci s o) = false ->
+  PI ti tm (vstep_state cci s o) (c10_acc_next a (VSock_Lemmas.fstep_of cci s o)).
+Proof. exact @PI_step. Qed.
+
+Print Assumptions c02_poll_pending_inbox_drained.
+Print Assumptions c02_prompt_write_poll_partial.
+Print Assumptions c02_prompt_invariant_kept.
